@@ -1,8 +1,379 @@
 // Oracles for the parse tree (C12) and the coverage facility (C08.coverage).
+// Both rebuild what the facility must have produced from the same run's recorded history.
+#include <algorithm>
+#include <map>
+#include <memory>
+#include <sstream>
+
 #include "oracle.hpp"
 
 namespace sim
 {
-   void check_tree( const Case&, const RunResult&, std::vector< Violation >&, Features& ) {}
-   void check_coverage( const Case&, const RunResult&, std::vector< Violation >&, Features& ) {}
+   namespace
+   {
+      struct XNode
+      {
+         std::uint64_t type = 0;
+         std::string name;
+         std::uint32_t b = 0, bl = 0, bc = 0, e = 0, el = 0, ec = 0;
+         bool has_content = true;
+         std::vector< std::unique_ptr< XNode > > children;
+      };
+
+      struct XFrame
+      {
+         std::uint32_t rule = 0;
+         std::uint32_t b = 0, bl = 0, bc = 0;
+         bool delegating = false;
+         std::uint32_t nested = 0;
+         std::vector< std::unique_ptr< XNode > > children;
+      };
+
+      void flatten( const XNode& n, std::uint32_t depth, std::vector< TreeNode >& out )
+      {
+         TreeNode t;
+         t.type = n.type;
+         t.type_name = n.name;
+         t.b = n.b;
+         t.bl = n.bl;
+         t.bc = n.bc;
+         t.has_content = n.has_content;
+         if( n.has_content ) {
+            t.e = n.e;
+            t.el = n.el;
+            t.ec = n.ec;
+         }
+         t.depth = depth;
+         t.nchildren = static_cast< std::uint32_t >( n.children.size() );
+         out.push_back( t );
+         for( const auto& c : n.children ) {
+            flatten( *c, depth + 1, out );
+         }
+      }
+
+      std::string node_str( const TreeNode& t )
+      {
+         std::ostringstream o;
+         std::string n = t.type_name;
+         if( n.size() > 60 ) {
+            n = n.substr( 0, 60 ) + "...";
+         }
+         o << "{" << ( n.empty() ? "ROOT" : n ) << " depth " << t.depth << " begin " << int( t.b ) << ":" << t.bl << ":" << t.bc;
+         if( t.has_content ) {
+            o << " end " << int( t.e ) << ":" << t.el << ":" << t.ec;
+         }
+         else {
+            o << " no-content";
+         }
+         o << " children " << t.nchildren << "}";
+         return o.str();
+      }
+
+      std::string head( const std::string& n )
+      {
+         const std::size_t lt = n.find( '<' );
+         return lt == std::string::npos ? n : n.substr( 0, lt );
+      }
+   }  // namespace
+
+   void check_tree( const Case& c, const RunResult& r, std::vector< Violation >& out, Features& f )
+   {
+      (void)c;
+      (void)f;
+      auto viol = [ & ]( const char* oracle, const std::string& key, const std::string& detail ) {
+         if( out.size() < 16 ) {
+            out.push_back( Violation{ oracle, key, detail, 0 } );
+         }
+      };
+      // expected tree from the history
+      std::vector< XFrame > st;
+      st.emplace_back();  // root
+      bool top_result = false, top_exc = false;
+      for( const Event& e : r.h ) {
+         if( e.kind == Ev::ENTER ) {
+            XFrame fr;
+            fr.rule = e.rule;
+            fr.b = e.byte;
+            fr.bl = e.line;
+            fr.bc = e.col;
+            if( st.size() > 1 && st.back().nested == 0 && st.back().rule == e.rule ) {
+               st.back().delegating = true;
+            }
+            ++st.back().nested;
+            st.push_back( std::move( fr ) );
+         }
+         else if( e.kind == Ev::EXIT || e.kind == Ev::EXC ) {
+            if( st.size() < 2 ) {
+               viol( "HARNESS", "tree-frames", "unbalanced history" );
+               return;
+            }
+            XFrame fr = std::move( st.back() );
+            st.pop_back();
+            if( e.kind == Ev::EXC || !( e.flags & F_RESULT ) ) {
+               continue;  // backtracked or aborted branch: nothing survives
+            }
+            XFrame& parent = st.back();
+            const int sel = fr.delegating ? -1 : g_rules[ fr.rule ].sel;
+            if( sel < 0 ) {
+               for( auto& ch : fr.children ) {
+                  parent.children.push_back( std::move( ch ) );
+               }
+               continue;
+            }
+            auto n = std::make_unique< XNode >();
+            n->name = g_rules[ fr.rule ].name;
+            n->type = g_rules[ fr.rule ].namehash;
+            n->b = fr.b;
+            n->bl = fr.bl;
+            n->bc = fr.bc;
+            n->e = e.byte;
+            n->el = e.line;
+            n->ec = e.col;
+            n->children = std::move( fr.children );
+            switch( sel ) {
+               case 2:
+                  n->has_content = false;
+                  break;
+               case 3:
+                  if( n->children.size() == 1 ) {
+                     n = std::move( n->children.front() );
+                  }
+                  else {
+                     n->has_content = false;
+                  }
+                  break;
+               case 4:
+                  if( n->children.empty() ) {
+                     n.reset();
+                  }
+                  else {
+                     n->has_content = false;
+                  }
+                  break;
+               default:
+                  break;
+            }
+            if( n ) {
+               parent.children.push_back( std::move( n ) );
+            }
+         }
+         else if( e.kind == Ev::TOP_END ) {
+            top_result = ( e.flags & F_RESULT ) != 0;
+            top_exc = ( e.flags & F_EXC ) != 0;
+         }
+      }
+      if( top_exc ) {
+         return;  // the exception reached the caller: no tree is returned (exception oracles judge the rest)
+      }
+      if( !r.have_tree ) {
+         viol( "HARNESS", "no-tree", "tree run without tree result" );
+         return;
+      }
+      // C12.null
+      bool top_true = false;
+      for( const Event& e : r.h ) {
+         if( e.kind == Ev::EXIT && g_rules[ e.rule ].cls == RC::TOP ) {
+            top_true = ( e.flags & F_RESULT ) != 0;
+         }
+      }
+      (void)top_result;
+      if( r.tree_null == top_true ) {
+         viol( "C12.null", "null", std::string( "parse_tree::parse returned " ) + ( r.tree_null ? "no tree" : "a tree" ) + " although the top-level rule " + ( top_true ? "matched" : "failed" ) );
+         return;
+      }
+      if( r.tree_null ) {
+         return;
+      }
+      XNode root;
+      root.has_content = false;
+      root.children = std::move( st.front().children );
+      std::vector< TreeNode > want;
+      flatten( root, 0, want );
+      const std::vector< TreeNode >& got = r.tree;
+      const std::size_t n = std::min( want.size(), got.size() );
+      for( std::size_t i = 0; i < n; ++i ) {
+         const TreeNode& a = want[ i ];
+         const TreeNode& b = got[ i ];
+         const bool same = a.type == b.type && a.depth == b.depth && a.nchildren == b.nchildren && ( i == 0 || ( a.b == b.b && a.bl == b.bl && a.bc == b.bc && a.has_content == b.has_content && ( !a.has_content || ( a.e == b.e && a.el == b.el && a.ec == b.ec ) ) ) );
+         if( !same ) {
+            viol( "C12.tree", head( b.type_name.empty() ? a.type_name : b.type_name ), "node " + std::to_string( i ) + " (preorder) differs: derivation has " + node_str( a ) + ", returned tree has " + node_str( b ) );
+            return;
+         }
+      }
+      if( want.size() != got.size() ) {
+         const bool extra = got.size() > want.size();
+         const TreeNode& t = extra ? got[ n ] : want[ n ];
+         viol( "C12.tree", head( t.type_name ), std::string( extra ? "returned tree has a node that is not part of the surviving derivation: " : "returned tree lacks a node of the surviving derivation: " ) + node_str( t ) );
+      }
+   }
+
+   void check_coverage( const Case& c, const RunResult& r, std::vector< Violation >& out, Features& f )
+   {
+      (void)c;
+      (void)f;
+      auto viol = [ & ]( const std::string& key, const std::string& detail ) {
+         if( out.size() < 16 ) {
+            out.push_back( Violation{ "C08.coverage", key, detail, 0 } );
+         }
+      };
+      struct Cnt
+      {
+         std::uint64_t start = 0, success = 0, failure = 0, unwind = 0, raise = 0, raise_nested = 0;
+      };
+      std::map< std::string, Cnt > want;  // "rule" and "rule\nbranch"
+      struct CF
+      {
+         std::uint32_t rule = 0;
+         bool delegating = false;
+         std::uint32_t nested = 0;
+         int closing = -1;
+      };
+      std::vector< CF > st;
+      bool map_at = false;
+      auto parent_of = [ & ]( std::size_t upto ) -> const CF* {
+         for( std::size_t i = upto; i-- > 0; ) {
+            if( !st[ i ].delegating ) {
+               return &st[ i ];
+            }
+         }
+         return nullptr;
+      };
+      for( const Event& e : r.h ) {
+         switch( e.kind ) {
+            case Ev::ENTER: {
+               if( !st.empty() && st.back().nested == 0 && st.back().rule == e.rule ) {
+                  // change_action & co.: the outer Control< Rule >::match never reaches tao::pegtl::match
+                  // (undo the start that was counted for it)
+                  const std::string& rn = g_rules[ e.rule ].name;
+                  --want[ rn ].start;
+                  if( const CF* p = parent_of( st.size() - 1 ) ) {
+                     --want[ g_rules[ p->rule ].name + "\n" + rn ].start;
+                  }
+                  st.back().delegating = true;
+               }
+               if( !st.empty() ) {
+                  ++st.back().nested;
+               }
+               CF fr;
+               fr.rule = e.rule;
+               st.push_back( fr );
+               const std::string& rn = g_rules[ e.rule ].name;
+               ++want[ rn ].start;
+               if( const CF* p = parent_of( st.size() - 1 ) ) {
+                  ++want[ g_rules[ p->rule ].name + "\n" + rn ].start;
+               }
+               break;
+            }
+            case Ev::SUCCESS:
+            case Ev::FAILURE:
+            case Ev::UNWIND:
+               if( !st.empty() && st.back().rule == e.rule ) {
+                  st.back().closing = int( e.kind );
+               }
+               break;
+            case Ev::RAISE:
+            case Ev::RAISE_NESTED: {
+               const std::string& rn = g_rules[ e.rule ].name;
+               ( e.kind == Ev::RAISE ? want[ rn ].raise : want[ rn ].raise_nested ) += 1;
+               if( const CF* p = parent_of( st.size() ) ) {
+                  Cnt& b = want[ g_rules[ p->rule ].name + "\n" + rn ];
+                  ( e.kind == Ev::RAISE ? b.raise : b.raise_nested ) += 1;
+               }
+               break;
+            }
+            case Ev::EXIT:
+            case Ev::EXC: {
+               if( st.empty() ) {
+                  return;
+               }
+               const CF fr = st.back();
+               st.pop_back();
+               if( e.kind == Ev::EXC && e.x < r.excs.size() && r.excs[ e.x ].cls == EXC_OTHER_STD && r.excs[ e.x ].what.find( "map::at" ) != std::string::npos ) {
+                  map_at = true;
+               }
+               if( fr.delegating ) {
+                  break;
+               }
+               int outcome;  // what the coverage state was told for this invocation
+               if( fr.closing >= 0 ) {
+                  outcome = fr.closing;
+               }
+               else if( e.kind == Ev::EXC ) {
+                  outcome = int( Ev::UNWIND );
+               }
+               else {
+                  outcome = ( e.flags & F_RESULT ) ? int( Ev::SUCCESS ) : int( Ev::FAILURE );
+               }
+               const std::string& rn = g_rules[ fr.rule ].name;
+               Cnt* tgt[ 2 ] = { &want[ rn ], nullptr };
+               if( const CF* p = parent_of( st.size() ) ) {
+                  tgt[ 1 ] = &want[ g_rules[ p->rule ].name + "\n" + rn ];
+               }
+               for( Cnt* t : tgt ) {
+                  if( t == nullptr ) {
+                     continue;
+                  }
+                  if( outcome == int( Ev::SUCCESS ) ) {
+                     ++t->success;
+                  }
+                  else if( outcome == int( Ev::FAILURE ) ) {
+                     ++t->failure;
+                  }
+                  else {
+                     ++t->unwind;
+                  }
+               }
+               break;
+            }
+            default:
+               break;
+         }
+      }
+      if( map_at ) {
+         viol( "map-at", "the coverage facility threw std::out_of_range (map::at) in place of the grammar's own outcome" );
+         return;
+      }
+      // compare with the returned coverage_result (rules the run never started have all-zero counters)
+      std::map< std::string, Cnt > got;
+      for( const CovEntry& ce : r.cov ) {
+         Cnt& g = got[ ce.branch.empty() ? ce.rule : ce.rule + "\n" + ce.branch ];
+         g.start = ce.start;
+         g.success = ce.success;
+         g.failure = ce.failure;
+         g.unwind = ce.unwind;
+         g.raise = ce.raise;
+         g.raise_nested = ce.raise_nested;
+      }
+      auto show = []( const std::string& k ) {
+         std::string s = k;
+         std::replace( s.begin(), s.end(), '\n', '|' );
+         if( s.size() > 120 ) {
+            s = s.substr( 0, 120 ) + "...";
+         }
+         return s;
+      };
+      for( const auto& [ k, w ] : want ) {
+         const auto it = got.find( k );
+         const Cnt g = ( it == got.end() ) ? Cnt() : it->second;
+         if( g.start != w.start || g.success != w.success || g.failure != w.failure || g.unwind != w.unwind || g.raise != w.raise || g.raise_nested != w.raise_nested ) {
+            std::ostringstream o;
+            o << "coverage of " << show( k ) << ": start/success/failure/unwind/raise/raise_nested = " << g.start << "/" << g.success << "/" << g.failure << "/" << g.unwind << "/" << g.raise << "/" << g.raise_nested << ", the run's own log says " << w.start << "/" << w.success << "/" << w.failure << "/" << w.unwind << "/" << w.raise << "/" << w.raise_nested;
+            viol( head( k.substr( 0, k.find( '\n' ) ) ), o.str() );
+            return;
+         }
+      }
+      for( const auto& [ k, g ] : got ) {
+         if( g.start != g.success + g.failure + g.unwind ) {
+            std::ostringstream o;
+            o << "coverage of " << show( k ) << ": start " << g.start << " != success " << g.success << " + failure " << g.failure << " + unwind " << g.unwind;
+            viol( head( k.substr( 0, k.find( '\n' ) ) ), o.str() );
+            return;
+         }
+         if( want.find( k ) == want.end() && ( g.start || g.success || g.failure || g.unwind || g.raise || g.raise_nested ) ) {
+            viol( head( k.substr( 0, k.find( '\n' ) ) ), "coverage reports activity for " + show( k ) + " that the run's own log does not contain" );
+            return;
+         }
+      }
+   }
+
 }  // namespace sim
